@@ -1,0 +1,285 @@
+//! Verification facade for the HTTP status pages and the metrics of the BMP
+//! unit (cargo feature `verif-hooks`, add-only).
+//!
+//! `HttpFixture` wires the real `RouterListApi`, `RouterInfoApi`, `BmpState`
+//! machines and metrics sources together the way `unit.rs` does, without
+//! sockets, so that an external harness can feed BMP messages to the real
+//! state machine and ask the real request processors for their pages.
+//! Nothing here alters behaviour.
+
+use std::{
+    net::IpAddr,
+    sync::{Arc, RwLock},
+    time::Instant,
+};
+
+use arc_swap::ArcSwap;
+use bytes::Bytes;
+use chrono::{DateTime, TimeZone, Utc};
+use hyper::{Body, Method, Request};
+use routecore::bmp::message::Message as BmpMsg;
+use tokio::sync::Mutex;
+
+use crate::{
+    common::frim::FrimMap,
+    http::{self, ProcessRequest},
+    ingress::{self, IngressId, IngressInfo},
+    metrics::{self, OutputFormat, Source, Target},
+    units::bmp_tcp_in::{
+        http::{RouterInfoApi, RouterListApi},
+        metrics::BmpTcpInMetrics,
+        state_machine::{BmpState, BmpStateMachineMetrics},
+        status_reporter::BmpTcpInStatusReporter,
+        types::RouterInfo,
+        util::format_source_id,
+    },
+};
+
+type SharedState = Arc<Mutex<Option<BmpState>>>;
+
+pub struct HttpFixture {
+    http_api_path: Arc<String>,
+    router_id_template: Arc<ArcSwap<String>>,
+    ingresses: Arc<ingress::Register>,
+    conn_metrics: Arc<BmpTcpInMetrics>,
+    bmp_metrics: Arc<BmpStateMachineMetrics>,
+    status_reporter: Arc<BmpTcpInStatusReporter>,
+    router_states: Arc<FrimMap<IngressId, SharedState>>,
+    router_info: Arc<FrimMap<IngressId, Arc<RouterInfo>>>,
+    list_api: RouterListApi,
+    info_apis: Vec<(IngressId, Arc<RouterInfoApi>, SharedState)>,
+}
+
+fn epoch() -> DateTime<Utc> {
+    Utc.timestamp_opt(0, 0).unwrap()
+}
+
+impl HttpFixture {
+    /// Mirrors the set-up in `BmpTcpIn::run` (unit.rs).
+    pub fn new(http_api_path: &str, router_id_template: &str) -> Self {
+        let gate = crate::comms::Gate::default();
+        let conn_metrics = Arc::new(BmpTcpInMetrics::new(&gate));
+        let bmp_metrics = Arc::new(BmpStateMachineMetrics::new());
+        let status_reporter = Arc::new(BmpTcpInStatusReporter::new(
+            "verif",
+            conn_metrics.clone(),
+        ));
+        let router_states = Arc::new(FrimMap::default());
+        let router_info = Arc::new(FrimMap::default());
+        let router_id_template = Arc::new(ArcSwap::from_pointee(
+            router_id_template.to_string(),
+        ));
+        let http_api_path = Arc::new(http_api_path.to_string());
+        let ingresses = Arc::new(ingress::Register::new());
+        let list_api = RouterListApi::new(
+            http::Resources::default(),
+            http_api_path.clone(),
+            router_info.clone(),
+            conn_metrics.clone(),
+            bmp_metrics.clone(),
+            router_id_template.clone(),
+            router_states.clone(),
+            ingresses.clone(),
+        );
+        Self {
+            http_api_path,
+            router_id_template,
+            ingresses,
+            conn_metrics,
+            bmp_metrics,
+            status_reporter,
+            router_states,
+            router_info,
+            list_api,
+            info_apis: vec![],
+        }
+    }
+
+    /// Mirrors the accept loop + `router_connected` +
+    /// `setup_router_specific_api_endpoint` (unit.rs), with fixed timestamps.
+    pub fn add_router(&mut self, addr: Option<IpAddr>) -> IngressId {
+        let ingress_id = self.ingresses.register();
+        if let Some(addr) = addr {
+            self.ingresses.update_info(
+                ingress_id,
+                IngressInfo::new().with_remote_addr(addr),
+            );
+        }
+        let router_id = Arc::new(format_source_id(
+            &self.router_id_template.load(),
+            "unknown",
+            ingress_id,
+        ));
+        let state = BmpState::new(
+            ingress_id,
+            router_id,
+            self.status_reporter.clone(),
+            self.bmp_metrics.clone(),
+            self.ingresses.clone(),
+        );
+        let shared: SharedState = Arc::new(Mutex::new(Some(state)));
+        self.router_states.insert(ingress_id, shared.clone());
+        let info = RouterInfo {
+            connected_at: epoch(),
+            last_msg_at: Arc::new(RwLock::new(epoch())),
+            api_processor: None,
+        };
+        let api = Arc::new(RouterInfoApi::new(
+            http::Resources::default(),
+            self.http_api_path.clone(),
+            ingress_id,
+            self.conn_metrics.clone(),
+            self.bmp_metrics.clone(),
+            info.connected_at,
+            info.last_msg_at.clone(),
+            Arc::downgrade(&shared),
+            self.ingresses.clone(),
+        ));
+        self.router_info.insert(ingress_id, Arc::new(info));
+        self.info_apis.push((ingress_id, api, shared));
+        ingress_id
+    }
+
+    fn shared(&self, id: IngressId) -> Option<SharedState> {
+        self.info_apis
+            .iter()
+            .find(|(i, _, _)| *i == id)
+            .map(|(_, _, s)| s.clone())
+    }
+
+    /// Feeds one complete BMP message to the router's real state machine
+    /// (`BmpState::process_msg`). Returns false if the bytes are not a BMP
+    /// message or the router is unknown.
+    pub async fn feed(&self, id: IngressId, msg: Bytes) -> bool {
+        let Some(shared) = self.shared(id) else { return false };
+        let Ok(msg) = BmpMsg::from_octets(msg) else { return false };
+        let mut lock = shared.lock().await;
+        let state = lock.take().unwrap();
+        let res = state.process_msg(Instant::now(), msg, None);
+        lock.replace(res.next_state);
+        true
+    }
+
+    /// The router's sysName/sysDesc/extra strings as the state machine
+    /// stored them (None before the Initiation message).
+    pub async fn sys_strings(
+        &self,
+        id: IngressId,
+    ) -> Option<(String, String, Vec<String>)> {
+        let shared = self.shared(id)?;
+        let lock = shared.lock().await;
+        match lock.as_ref()? {
+            BmpState::Dumping(d) => Some((
+                d.details.sys_name.clone(),
+                d.details.sys_desc.clone(),
+                d.details.sys_extra.clone(),
+            )),
+            BmpState::Updating(d) => Some((
+                d.details.sys_name.clone(),
+                d.details.sys_desc.clone(),
+                d.details.sys_extra.clone(),
+            )),
+            _ => None,
+        }
+    }
+
+    /// Records a parse error for the router through the state machine's
+    /// status reporter, as `process_msg` does for an invalid message.
+    pub async fn report_parse_error(
+        &self,
+        id: IngressId,
+        err: String,
+        bytes: Option<Bytes>,
+        recoverable: bool,
+    ) -> bool {
+        let Some(shared) = self.shared(id) else { return false };
+        let lock = shared.lock().await;
+        let Some(state) = lock.as_ref() else { return false };
+        let Some(reporter) = state.status_reporter() else { return false };
+        if recoverable {
+            reporter.bgp_update_parse_soft_fail(state.router_id(), err, bytes);
+        } else {
+            reporter.bgp_update_parse_hard_fail(state.router_id(), err, bytes);
+        }
+        true
+    }
+
+    pub async fn router_id(&self, id: IngressId) -> Option<String> {
+        let shared = self.shared(id)?;
+        let lock = shared.lock().await;
+        lock.as_ref().map(|s| s.router_id().as_str().to_string())
+    }
+
+    fn request(uri: &str) -> Option<Request<Body>> {
+        Request::builder()
+            .method(Method::GET)
+            .uri(uri)
+            .body(Body::empty())
+            .ok()
+    }
+
+    async fn finish(
+        res: Option<hyper::Response<Body>>,
+    ) -> Option<(u16, Vec<u8>)> {
+        let res = res?;
+        let status = res.status().as_u16();
+        let body = hyper::body::to_bytes(res.into_body()).await.ok()?;
+        Some((status, body.to_vec()))
+    }
+
+    /// `RouterListApi::process_request` for `GET <uri>`.
+    pub async fn get_list(&self, uri: &str) -> Option<(u16, Vec<u8>)> {
+        let req = Self::request(uri)?;
+        Self::finish(self.list_api.process_request(&req).await).await
+    }
+
+    /// `RouterInfoApi::process_request` of the given router for `GET <uri>`.
+    pub async fn get_info(
+        &self,
+        id: IngressId,
+        uri: &str,
+    ) -> Option<(u16, Vec<u8>)> {
+        let req = Self::request(uri)?;
+        let api = self
+            .info_apis
+            .iter()
+            .find(|(i, _, _)| *i == id)
+            .map(|(_, a, _)| a.clone())?;
+        Self::finish(api.process_request(&req).await).await
+    }
+
+    /// The Prometheus exposition of the unit's two metrics sources.
+    pub fn metrics_prometheus(&self, unit_name: &str) -> String {
+        let mut target = Target::new(OutputFormat::Prometheus);
+        self.conn_metrics.append(unit_name, &mut target);
+        self.bmp_metrics.append(unit_name, &mut target);
+        target.into_string()
+    }
+}
+
+/// `metrics::util::append_per_router_metric` on a fresh Prometheus target:
+/// the label-value writer in isolation.
+pub fn prometheus_router_line(unit_name: &str, router_id: &str) -> String {
+    let mut target = Target::new(OutputFormat::Prometheus);
+    metrics::util::append_per_router_metric(
+        unit_name,
+        &mut target,
+        router_id,
+        metrics::Metric::new(
+            "verif_probe",
+            "probe",
+            metrics::MetricType::Gauge,
+            metrics::MetricUnit::Total,
+        ),
+        0usize,
+    );
+    target.into_string()
+}
+
+pub fn router_label(
+    router_id_template: &str,
+    sys_name: &str,
+    ingress_id: IngressId,
+) -> String {
+    format_source_id(router_id_template, sys_name, ingress_id)
+}
